@@ -7,7 +7,7 @@ from harness.common import Check
 from translate import gatecode as t_gc, wrapper as t_wr
 
 LEVEL = "proof"
-THEOREMS = ["C02_logic_net", "C02_pool_wf", "C02_reference", "C02_net_counts", "C02_net_direct", "C02_validator_sound", "C02_gate_templates", "C02_counts"]
+THEOREMS = ["C02_logic_net", "C02_pool_wf", "C02_reference", "C02_net_counts", "C02_emitted_counts", "C02_net_direct", "C02_validator_sound", "C02_gate_templates", "C02_counts"]
 TRUSTED = [
     "Coq 8.16.1 kernel/coqc; theorems closed under the global context (no axioms)",
     "generator model Model/GenNet.gen_net, hand-written: tied to get_c_code() on every run by SYNTACTIC equality (prog_eqb, evaluated by "
